@@ -1,0 +1,22 @@
+//go:build verif
+
+package hashkit
+
+// Contracts for crc16.go, read by the rcvc verifier in /verif (comment-only; adds no code).
+
+//@ use crc
+//@ table crc16tab crc16tab_at
+
+//@ func hash
+//@   props C05
+//@   flags pure
+//@   ensures[slot] result == crcslot(key)
+//@   loop 0
+//@     invariant 0 <= x && x <= keyLen && keyLen == len(key)
+//@     invariant low16(crc) == crc16(key, x)
+//@     decreases keyLen - x
+
+//@ func Hash
+//@   props C05
+//@   flags pure
+//@   ensures[keyslot] result == keyslot(key)
